@@ -240,6 +240,7 @@ func TestC11Admission(t *testing.T) {
 			}
 		}
 
+		sim.CaseStart(t)
 		w := sim.NewWorld()
 		defer w.Close()
 		a := w.AddNode("alice")
